@@ -224,11 +224,12 @@ def run(ctx):
                 if odd:
                     ok = (not isinstance(out, Raised)) and not isinstance(integ(d, out), Raised) and np.array_equal(integ(d, out), i0)
                     first_level_odd = any(n % 2 for n in shape)
-                    if not ok and not first_level_odd:
-                        # a different mechanism: the code uses the ORIGINAL extent at every level (broadcast of a single entry at current
-                        # extent 3, ValueError at current extents 1 and 5, 7, ...)
-                        ctx.fail("C11:uniform_refinement(levels<-1):original extent used at deeper levels(odd intermediate extent)",
-                                 f"shape {shape}, levels {lv}: " + (repr(out) if isinstance(out, Raised) else f"integral {i0.tolist()} -> {np.asarray(integ(d, out)).tolist()}"), replay)
+                    if isinstance(out, Raised) or (not ok and tuple(out.img.shape[:dim]) != tuple(cur)):
+                        # since the fix (current extent on every level) coarsening never raises and always halves (rounding up) every extent;
+                        # before it: broadcast of a single entry at current extent 3, ValueError at current extents 1 and 5, 7, ...
+                        ctx.fail("C11:uniform_refinement(levels<-1):original extent used at deeper levels(odd intermediate extent)" if not first_level_odd
+                                 else "C11:uniform_refinement(levels<0):raises-or-wrong-shape(odd extent)",
+                                 f"shape {shape}, levels {lv}: " + (repr(out) if isinstance(out, Raised) else f"shape {out.img.shape}, expected {tuple(cur)}"), replay)
                     elif not ok:
                         ctx.fail("C11:uniform_refinement(levels<0):odd extent along coarsened axis",
                                  f"shape {shape}, levels {lv}: " + (repr(out) if isinstance(out, Raised) else f"integral {i0.tolist()} -> {np.asarray(integ(d, out)).tolist()}"), replay)
@@ -239,8 +240,8 @@ def run(ctx):
                 i1 = integ(d, out)
                 if isinstance(i1, Raised) or not np.array_equal(i1, i0):
                     ctx.fail(f"C11:uniform_refinement({'refine' if lv > 0 else 'coarsen-even'}):integral-changed", f"shape {shape} levels {lv}: {i0.tolist()} -> {i1 if isinstance(i1, Raised) else i1.tolist()}", replay)
-                if not np.allclose(out.dimensions, img.dimensions, rtol=0, atol=0):
-                    ctx.fail("C11:uniform_refinement:dimensions-changed", f"{img.dimensions} -> {out.dimensions}", replay)
+                if not (np.allclose(out.dimensions, img.dimensions, rtol=0, atol=0) and np.allclose(out.origin, img.origin, rtol=0, atol=0)):
+                    ctx.fail("C11:uniform_refinement:dimensions-or-origin-changed", f"{img.dimensions} -> {out.dimensions}, {list(img.origin)} -> {list(out.origin)}", replay)
                 if lv > 0:
                     back = twice(ctx, d, "uniform_refinement", [out], lambda: d.uniform_refinement(out, -lv), dict(replay, second_level=-lv))
                     if isinstance(back, Raised) or back.img.shape != img.img.shape or not np.array_equal(back.img, img.img):
@@ -382,8 +383,14 @@ def run(ctx):
         if isinstance(i1, Raised) or not np.allclose(i1, tot, rtol=1e-13, atol=1e-13) or not np.array_equal(tot, tot_before):
             ctx.fail(f"C11:superpose({'shared' if shared else 'offset'}-grid):integral", f"{i1} != {tot}", replay)
         if not series and res.img.shape == exp.shape:
-            line = f"superpose 2 {R} {C} {k} " + " ".join(f"2 {o[0] - r0} {o[1] - c0} 2 {s[0]} {s[1]} {flist(a.ravel().tolist())}" for o, s, a in placed)
-            corr("superpose", line, res.img, True)
+            # the CANVAS is computed by the model from the raw positions; the implementation's canvas is read from its metadata
+            line = f"canvas {k} " + " ".join(f"{o[0]} {o[1]} {s[0]} {s[1]} {flist(a.ravel().tolist())}" for o, s, a in placed)
+            tmin = (10.0 - float(res.origin[1])) / H
+            lmin = (float(res.origin[0]) + 1.0) / H
+            head = f"{fmts([tmin, lmin])} {res.img.shape[0]} {res.img.shape[1]}"
+            if not np.allclose(res.dimensions, [H * res.img.shape[0], H * res.img.shape[1]], rtol=0, atol=0):
+                head += " dims!"
+            corr("superpose", line, (head, res.img), True)
     ctx.cov["superpose_cases"] = n_sup
 
     # ------------------------------------------------------------------ multi-level coarsening exactly as coded (1-D)
